@@ -37,6 +37,15 @@ def profile(**kw):
     return p
 
 
+def deeper(prof):
+    """the thorough-tier variant of a profile: one more packet level and wider packets"""
+    p = dict(prof)
+    p["w"] = dict(prof["w"])
+    p["max_pkts"] = prof["max_pkts"] + 1
+    p["max_fields"] = prof["max_fields"] + 2
+    return p
+
+
 class Infeasible(Exception):
     pass
 
